@@ -1,6 +1,7 @@
 package runner
 
 import (
+	"bytes"
 	"context"
 	"fmt"
 	"io"
@@ -110,6 +111,10 @@ func (r *TaskRunner) Run(t *task.Task) error {
 	if err := r.ctx.Err(); err != nil {
 		return err
 	}
+
+	// a task can run more than once (several targets, stages sharing it, watchers):
+	// what it captures is the output of this run only
+	t.Log.Stdout, t.Log.Stderr = bytes.Buffer{}, bytes.Buffer{}
 
 	execContext, err := r.contextForTask(t)
 	if err != nil {
